@@ -15,10 +15,17 @@ import (
 )
 
 const (
-	repoDir  = "/repo"
-	verifDir = "/verif"
-	rootMod  = "github.com/jawher/mow.cli"
+	repoDir = "/repo"
+	rootMod = "github.com/jawher/mow.cli"
 )
+
+// verifDir is /verif, or the snapshot a background run works from (VERIF_DIR).
+var verifDir = func() string {
+	if d := os.Getenv("VERIF_DIR"); d != "" {
+		return d
+	}
+	return "/verif"
+}()
 
 // group is a set of harness files injected into one package of /repo.
 type group struct {
